@@ -41,8 +41,18 @@ ASSUMPTIONS = ["scipy.linalg.expm / numpy.linalg eigh, eig, solve, svd on matric
                "(10 tol + 1e-13 + 100 eps |t| ||A||)",
                "eigs: k <= dimension of the reachable Krylov space (the docstring only demands k < ncv); "
                "lin_solver: v0 is not already the exact solution (the solver rejects that with YastnError)",
-               "hermitian=True is passed only for maps whose dense matrix is exactly Hermitian"]
+               "hermitian=True is passed only for maps whose dense matrix is exactly Hermitian",
+               "'exact result representable' is read as: spectral growth of exp(tA) and the numerical abscissa of tA (bound for every "
+               "Krylov projection) below exp(300); beyond ~1e154 plain 2-norms overflow.  Such cases are counted (expmv_excluded_overflow), "
+               "not judged",
+               "start vectors that store fewer than min(30, sector dimension) elements are propagated only over |t| ||A|| <= 0.02*size with "
+               "tol=1e-6: expmv caps its Krylov dimension at the number of stored elements, the low-order regime is legitimately slow",
+               "a non-terminating expmv call is detected deterministically (identical controller state 25 times in a row, sampled by the "
+               "LINE monitor) and reported as a violation; 20000 loop iterations without repetition are counted, not judged"]
 EPS = 2.3e-16
+# exp(300) ~ 2e130: beyond ~1e154 a plain 2-norm (numpy, Tensor.norm) overflows when squaring, so 'the exact result is
+# representable' is read as: growth of the exact result and of any Krylov projection (numerical abscissa) below exp(300)
+GROWTH_MAX = 300.0
 
 
 def plan(tier):
@@ -475,7 +485,7 @@ def expm_oracle(P, t, vec):
         if P.herm:
             lam, U = np.linalg.eigh(M)
             ex = (t * lam)
-            if ex.real.max() > 600 or ex.real.min() < -600:
+            if ex.real.max() > GROWTH_MAX or ex.real.min() < -GROWTH_MAX:
                 return None
             exact = U @ (np.exp(ex) * (U.conj().T @ vec))
             normE = float(np.exp(ex.real.max()))
@@ -483,11 +493,11 @@ def expm_oracle(P, t, vec):
         else:
             lam = np.linalg.eigvals(M)
             ex = t * lam
-            if ex.real.max() > 600 or ex.real.min() < -600:
+            if ex.real.max() > GROWTH_MAX or ex.real.min() < -GROWTH_MAX:
                 return None
             # non-normal map: exp(tau H_m) of a Krylov projection is bounded by the numerical abscissa of tA, not by its spectrum;
             # a trial step over the whole interval may overflow although the exact result is representable -> not judged either
-            if np.linalg.eigvalsh((t * M + np.conj(t * M).T) / 2).max() > 600:
+            if np.linalg.eigvalsh((t * M + np.conj(t * M).T) / 2).max() > GROWTH_MAX:
                 return None
             E = sla.expm(t * M)
             exact = E @ vec
@@ -502,6 +512,7 @@ def expm_oracle(P, t, vec):
     nv = float(np.linalg.norm(vec))
     kappa = normE * nv / ne if ne > 0 else 1.0
     unc = float(np.linalg.norm(alt - exact)) / ne if (alt is not None and ne > 0) else 0.0
+    P.growth = float(ex.real.max())      # log of the spectral growth of exp(tA)
     return exact, max(1.0, kappa), unc
 
 
@@ -531,7 +542,7 @@ def kappa_path(P, t, vec, exact, npts=8):
     return best if np.isfinite(best) else float("inf")
 
 
-def judge_expmv(ctx, P, params, out_vec, exact, kappa, label="expmv", vec=None):
+def judge_expmv(ctx, P, params, out_vec, exact, kappa, label="expmv", vec=None, info=None):
     """out_vec, exact: dense sector vectors. Returns True if inside the bound."""
     t, tol = params["t"], params["tol"]
     ne = float(np.linalg.norm(exact))
@@ -549,8 +560,17 @@ def judge_expmv(ctx, P, params, out_vec, exact, kappa, label="expmv", vec=None):
         ctx.margin("expmv-wellconditioned:err/(10tol+1e-13+floor)", err, allowed)
     if not ok:
         tkind = "t-real" if np.imag(t) == 0 else ("t-imag" if np.real(t) == 0 else "t-complex")
-        ctx.violation(f"value:{label}:" + ("hermitian" if params["hermitian"] else "arnoldi") + ":" + tkind,
-                      f"{label}: relative error {err:.3e} > allowed {allowed:.3e} (tol={tol:g}, kappa={kappa:.2e}, |t|*||A||={abs(t) * P.nrm:.3g})",
+        est = info.get("error") if isinstance(info, dict) else None
+        growth = getattr(P, "growth", 0.0)
+        if est is not None and est <= 1.2 * tol * 1.01 and growth > 30:
+            # demonstrated mechanism: for strongly growing (exp(tA) ~ e^30 and more) problems the accumulated error estimate
+            # stays below tol while the true error is orders of magnitude larger
+            key = "value:expmv:error-estimate-optimistic:growth>e^30"
+        else:
+            key = f"value:{label}:" + ("hermitian" if params["hermitian"] else "arnoldi") + ":" + tkind
+        ctx.violation(key,
+                      f"{label}: relative error {err:.3e} > allowed {allowed:.3e} (tol={tol:g}, kappa={kappa:.2e}, |t|*||A||={abs(t) * P.nrm:.3g}, "
+                      f"growth e^{growth:.0f}, info.error={est})",
                       pdesc(P, **{k: (v if not isinstance(v, complex) else [v.real, v.imag]) for k, v in params.items()}))
     return ok
 
@@ -656,6 +676,7 @@ def case_expmv(ctx, P, rng, nprng):
             ctx.count("expmv_zero_vector_rejected")
         ctx.case(("expmv-zero", psig(P), ncv, tol), False)
         return
+    P.growth = 0.0
     orc = expm_oracle(P, t, vec) if t != 0 else (vec.copy(), 1.0, 0.0)
     if orc is None:
         ctx.count("expmv_excluded_overflow")
@@ -677,7 +698,7 @@ def case_expmv(ctx, P, rng, nprng):
         out, info = r1
         o = observe_vector(ctx, "expmv", out, P, wit)
         if o is not None:
-            judge_expmv(ctx, P, params, o, exact, kappa, vec=vec)
+            judge_expmv(ctx, P, params, o, exact, kappa, vec=vec, info=info)
             ctx.count("expmv_judged")
             nontrivial = True
         if not isinstance(info, dict) or not all(k in info for k in ("ncv", "error", "krylov_steps", "steps")):
@@ -709,7 +730,7 @@ def case_expmv(ctx, P, rng, nprng):
                               dict(wit, call_ncv=ncv2))
             if n2 > 0:   # the direction is judged separately from the norm
                 judge_expmv(ctx, P, p2, o2 / n2, exact / np.linalg.norm(exact), kappa, label="expmv-normalized-direction",
-                            vec=vec / np.linalg.norm(exact))
+                            vec=vec / np.linalg.norm(exact), info=r2[1])
                 ctx.count("expmv_judged")
     ctx.count("expmv:phase:" + ph)
     ctx.count("expmv:vkind:" + vkind)
